@@ -26,7 +26,7 @@ from ..util import digest, short, stream
 
 ID = "C17"
 PRELOAD = ["sqllineage.runner", "sqllineage.drawing", "sim.props.c17"]
-BUDGET_S = {"quick": 150.0, "thorough": 1500.0}
+BUDGET_S = {"quick": 240.0, "thorough": 1500.0}
 
 DESCRIPTION = {
     "rule": (
@@ -314,6 +314,15 @@ def run_one(spec: dict) -> dict:
                     lexical_target = absolute
                 elif key == "d":
                     lexical_target = None  # /script|/lineage ignore d: nothing is read through it
+            if op.get("second"):
+                # both path parameters in one payload (the page forwards its whole query string), either may be empty:
+                # whichever the server picks, what it serves must lie under the root - judged from the response alone
+                k2 = "d" if key == "f" else "f"
+                payload[k2] = spell(world, {"path": op["second"]}, cwd, roots_before[0])
+                lexical_target = None
+                probe("two_path_parameters")
+                if "" in payload.values():
+                    probe("two_path_parameters_one_empty")
             if op.get("extra"):
                 payload.update(op["extra"])
             path_info = route + op.get("route_suffix", "")
@@ -340,7 +349,7 @@ def run_one(spec: dict) -> dict:
             allowed_roots = list(dict.fromkeys([*roots_before, *during, *roots_after]))
             if len(during) > 1:
                 probe("threaded_root_move_concurrent")
-            if route == "/directory" and op.get("key") is None:
+            if route == "/directory" and (op.get("key") is None or (payload is not None and "" in payload.values())):
                 allowed_roots.append(os.path.normpath(os.environ.get("SQLLINEAGE_DIRECTORY") or _default_directory()))
         # --- oracle
         text = body.decode("utf-8", "replace")
@@ -711,6 +720,17 @@ def gen_request(g, threaded=False):
         op["route_case"] = True
     if key is not None:
         op["path"] = gen_path(g, any_root=threaded)
+        g2 = stream(g.randrange(2 ** 48), "second-param")
+        if g2.random() < 0.12:
+            empty = {"start": "cwd", "segs": [], "abs": False, "literal": ""}
+            r2 = g2.random()
+            if r2 < 0.35:
+                op["second"] = op["path"]
+                op["path"] = empty
+            elif r2 < 0.55:
+                op["second"] = empty
+            else:
+                op["second"] = gen_path(g2, any_root=threaded)
     if route == "/lineage" and g.random() < 0.3:
         op["extra"] = {"dialect": g.choice(["ansi", "non-validating"])}
     if key == "d" and route != "/directory" and g.random() < 0.5:
